@@ -76,15 +76,19 @@ fn judge(run: &ScriptRun, out: &mut Vec<Violation>) -> (u64, Vec<u64>) {
         by_q.entry(o.queue).or_default().push(o);
     }
     for (q, list) in &by_q {
+        // "start" = admission = the public StartTransfer event. The order of the FIRST PACKETS may differ by a
+        // round-robin step when two objects are admitted in the same scheduling round (both wait behind the
+        // FDT instance their admission published): that is the alternation clause's business, not this one's.
+        let start_seq = |o: &ObjView| run.sub_events.iter().position(|(_, e)| matches!(e, SubEv::Start(t, _) if *t == o.toi)).unwrap_or(usize::MAX);
         let mut order: Vec<&&ObjView> = list.iter().filter(|o| !o.pkts.is_empty()).collect();
-        order.sort_by_key(|o| o.pkts[0]);
+        order.sort_by_key(|o| (start_seq(o), o.pkts[0]));
         // expected: by (ready_from, add order)
         let mut want: Vec<&&ObjView> = list.iter().filter(|o| !o.pkts.is_empty()).collect();
         want.sort_by_key(|o| (o.ready_from, o.add_pos));
         let got: Vec<usize> = order.iter().map(|o| o.i).collect();
         let exp: Vec<usize> = want.iter().map(|o| o.i).collect();
         if got != exp {
-            out.push(base(Violation::new("admission_order", format!("queue {}: objects first appear in order {:?}, they were made ready in order {:?}", q, got, exp))).witness(wit(json!({"queue": q}))));
+            out.push(base(Violation::new("admission_order", format!("queue {}: objects start (StartTransfer events) in order {:?}, they were made ready in order {:?}", q, got, exp))).witness(wit(json!({"queue": q}))));
         }
         // (X) multiplex bound
         let m = mux(*q);
